@@ -6,6 +6,7 @@ from .. import fam_numeric as fnum
 from .. import fam_pipeline as fp
 from .. import fam_recipe as fr
 from .. import gen_models as gm
+from .. import oracles as orc
 from .. import pipeline as pl
 from ai_edge_quantizer import quantizer
 
@@ -125,6 +126,8 @@ def runtime_half(ctx, drv, accepted):
                     continue
                 fnum.compare_float_modes(ctx, interp, case, res, fail)
                 fnum.compare_static(ctx, interp, case, res, fail)
+                # "tracks the float model": the stored constants themselves must decode to within one step of the originals
+                orc.oracle_c05(ctx, case, res, fail)
     finally:
         interp.close()
         ctx.extra["runtime_cases"] = n
